@@ -264,6 +264,8 @@ def check_hand(case, exclude=True):
     res.sample = dict(variant=var, file=data[:300].decode('utf-8', 'replace'))
     return res
 
+FUZZ = [('roundtrip', 3000), ('handwritten', 2000)]       # thorough tier: coverage-guided sub-run (vf/fuzz.py), runs per process x 16 processes
+
 
 def streams(tier):
     n = 7 if tier == 'quick' else 10
